@@ -50,7 +50,7 @@ def main():
     m = {
      "version": 1,
      "setup_cmd": "./setup.sh",
-     "hooks": {"guard": "verif", "enable": "go1.26.8 test -c -tags verif [-race] ./sim  (module replace github.com/d5/tengo/v2 => /repo)",
+     "hooks": {"guard": "verif", "enable": "go1.26.8 test -c -tags verif -ldflags=-checklinkname=0 [-race] ./sim  (module replace github.com/d5/tengo/v2 => /repo)",
                "baseline_off_cmd": BASE_OFF, "source_commits": hooks_commits, "add_only": True},
      "engines": [{"name":"sim","path":"sim/","serves_properties":sorted(CHECKS),"kind_free_text":"deterministic simulator: seeded controller releasing real goroutines one at a time at guarded hook sites inside a testing/synctest bubble; plan-file replay; process-isolated workers"}],
      "checks": [],
